@@ -111,16 +111,27 @@ def _get_reusable(ctx, a):
         pids_before = sorted(pid for pid, p in list(prev._processes.items()) if p._kp is not None and p._kp.alive)
         prev_started = prev._executor_manager_thread is not None
         prev_mw = prev._max_workers
+    # the size the caller last obtained from a call that returned (what "a different max_workers" is relative to,
+    # whatever the executor has recorded meanwhile)
+    prev_user = getattr(prev, "_verif_user_size", None) if prev is not None else None
     ids_before = [r["executor_id"] for r in ctx.executors if r["kind"] == "reusable"]
     earlier_cqs = [r.get("cq_id") for r in ctx.executors if r["kind"] == "reusable" and r.get("cq_id") is not None]
     start = w.steps
-    ex = re_.get_reusable_executor(**kw)
+    if a.get("warn_error"):
+        w.cur.warn_error = True
+        try:
+            ex = re_.get_reusable_executor(**kw)
+        finally:
+            w.cur.warn_error = False
+    else:
+        ex = re_.get_reusable_executor(**kw)
     # (no scheduling point between the return above and the reads below)
     info = {"same": ex is prev, "executor_id": ex.executor_id, "prev_flags": prev_flags,
             "prev_flags_at_return": (None if prev is None else (bool(prev._flags.broken), bool(prev._flags.shutdown))),
             "flags_at_return": (bool(ex._flags.broken), bool(ex._flags.shutdown)),
             "max_workers_at_return": ex._max_workers, "requested": kw["max_workers"],
             "pids_before": pids_before, "prev_started": prev_started, "prev_max_workers": prev_mw,
+            "prev_user_size": prev_user if ex is prev else None,
             "pids_after": sorted(pid for pid, p in list(ex._processes.items()) if p._kp is not None and p._kp.alive),
             "registered_after": len(ex._processes),
             "ids_before": ids_before, "start": start, "end": w.steps,
@@ -128,6 +139,7 @@ def _get_reusable(ctx, a):
                                              [q.pid for q in w.procs.values() if getattr(q, "cq_id", None) == prev_cq and q.alive]),
             "timeout_kw": kw["timeout"], "init_kw": init, "reuse": kw["reuse"],
             "prev_kwargs_equal": None}
+    ex._verif_user_size = kw["max_workers"]
     r = _register(ctx, ex, "reusable")
     if r.get("cq_id") is None and ex._call_queue is not None:
         r["cq_id"] = id(ex._call_queue)
@@ -292,6 +304,21 @@ def _user_thread(ctx, i, ops):
                 return "skipped"
             drop_ref()
             return None
+        if name == "kill":
+            # an external abrupt death (kill -9 from outside, OOM killer, ...) of the k-th spawned worker at this point of the
+            # program, wherever that worker is - typically blocked idle on the call queue, which no fault placed at one of
+            # the worker's own scheduling points can express
+            w.sched_point()
+            for q in list(w.procs.values()):
+                if q is not w.root and q.spawn_index == op[1] and q.alive and q.main is not None:
+                    reason = w.kill_veto(q, q.main) if w.kill_veto else None
+                    if reason is not None:
+                        w.excluded[reason] = w.excluded.get(reason, 0) + 1
+                        return "vetoed"
+                    w.kill_proc(q, op[2], injected=True, by="external")
+                    w.sched_point()
+                    return "killed"
+            return "skipped"
         if name == "get":
             ex, info = _get_reusable(ctx, op[1])
             th["ex"] = ex
